@@ -1,5 +1,6 @@
 mod absval;
 mod calc;
+mod drivers;
 mod emit;
 mod float;
 mod prog;
@@ -119,6 +120,15 @@ fn main() {
             let per: usize = arg(&args, "--per-prog").and_then(|x| x.parse().ok()).unwrap_or(3);
             let r = float::load(&files).and_then(|t| prog::run_programs(&t, &progs, seed, k, arg(&args, "--types").as_deref(), per));
             match r {
+                Ok(v) => println!("{v}"),
+                Err(e) => {
+                    eprintln!("tool error: {e}");
+                    std::process::exit(2);
+                }
+            }
+        }
+        "drivers" => {
+            match drivers::run(args.get(2).expect("drivers <file>")) {
                 Ok(v) => println!("{v}"),
                 Err(e) => {
                     eprintln!("tool error: {e}");
